@@ -19,6 +19,7 @@ import (
 	"fmt"
 	"net/netip"
 	"strings"
+	"time"
 	"testing"
 
 	"github.com/fxamacker/cbor/v2"
@@ -322,6 +323,7 @@ func TestC06(t *testing.T) {
 		var inHist []inTuple
 		var outHist []outTuple
 		errPingID := uint64(0x7700)
+		afterErrPing, afterTime, timeEvents := false, false, 0
 		nPackets := c.Int("packets", 1, 40)
 		for k := 0; k < nPackets; k++ {
 			if c.Chance("direction.out", 1, 3) {
@@ -341,7 +343,37 @@ func TestC06(t *testing.T) {
 				}
 				continue
 			}
-			mode := c.Weighted("in.mode", 6, 2, 2, 1) // fresh, retry of an earlier tuple, mirror of a local packet, error ping
+			mode := c.Weighted("in.mode", 12, 4, 4, 2, 1) // fresh, retry of an earlier tuple, mirror of a local packet, error ping, time passes
+			if afterErrPing && timeEvents < 2 && c.Bool("time.after-error-ping") {
+				mode = 4
+			}
+			if afterTime && len(inHist) > 0 && c.Bool("retry.after-time") {
+				mode = 1
+			}
+			afterErrPing, afterTime = false, false
+			if mode == 4 && timeEvents >= 2 {
+				mode = 0
+			}
+			if mode == 4 {
+				// Time passes without traffic and the connection-state cleaner runs
+				// (it does every 10 s). Durations stay below the 10 minutes after
+				// which entries are forgotten; ICMP entries are forgotten after 10 s.
+				timeEvents++
+				d := core.OneOf(c, "time.passes", 2*time.Second, 21*time.Second, 21*time.Second, 241*time.Second)
+				V.Rtr.VerifAgeConnStates(d)
+				V.Rtr.VerifCleanConnStates()
+				if d > 10*time.Second {
+					for key := range tracked {
+						if parts := strings.Split(key, "|"); len(parts) == 4 && (parts[1] == "1" || parts[1] == "58") {
+							delete(tracked, key)
+						}
+					}
+				}
+				c.Note("%s pass without traffic, cleaner tick", d)
+				c.Class("time-passes-and-cleaner-tick")
+				afterTime = true
+				continue
+			}
 			si := c.Pick("in.sender", len(senders))
 			if mode == 3 {
 				// An authentic error ping from a sender (only its own connections may be affected).
@@ -388,6 +420,7 @@ func TestC06(t *testing.T) {
 				}
 				c.Note("error ping code=%d from %s", code, s.kind)
 				c.Class(fmt.Sprintf("error-ping/code%d", code))
+				afterErrPing = true
 				vn.Queue = nil
 				if code == 2 {
 					// "no encryption keys" makes V drop its keys for this sender.
